@@ -71,9 +71,15 @@ class VerusResult:
 
 
 def extern_flags(names, deps=None):
+    arts = {}
+    if isinstance(deps, tuple):
+        deps, arts = deps
     deps = deps or DEPS
     fl = []
     for n in names:
+        if n in arts:
+            fl += ['--extern', '%s=%s' % (n, arts[n])]
+            continue
         c = glob.glob(os.path.join(deps, 'lib%s-*.rlib' % n))
         if not c:
             raise RuntimeError('dependency rlib %s not built (run /verif/bin/setup)' % n)
